@@ -142,6 +142,8 @@ type Src struct {
 	Media []SrcMedia `json:"media"`
 	NPara int        `json:"npara"`
 	NTbl  int        `json:"ntbl"`
+	// rows and cells a reader sees in each outermost table (index = table id - 1)
+	Tables []TblShape `json:"tables"`
 
 	tok map[int][2]int // token id -> (node, k); not part of the trace
 	// non-token words of skip-class text under a table or figure (raw noscript /
@@ -417,6 +419,7 @@ func (w *refWalker) walk(n *html.Node, ctx refCtx) {
 			if ctx.tbl == 0 {
 				w.tblID++
 				ctx.tbl = w.tblID
+				w.src.Tables = append(w.src.Tables, tableShape(n))
 			}
 			if eligible && tableLooksData(n) {
 				w.src.Media = append(w.src.Media, SrcMedia{Marker: firstTokenIn(n), Kind: "tbl", Prev: w.lastText, Node: len(w.src.Nodes) + 1})
@@ -504,12 +507,40 @@ func (w *refWalker) walk(n *html.Node, ctx refCtx) {
 
 // refAbstract computes the reference abstraction of the tree rooted at root.
 func refAbstract(root *html.Node, chains *interner) *Src {
-	w := &refWalker{src: &Src{Nodes: []SrcNode{}, Media: []SrcMedia{}, tok: map[int][2]int{}, raw: map[string]bool{}}, chains: chains}
+	w := &refWalker{src: &Src{Nodes: []SrcNode{}, Media: []SrcMedia{}, tok: map[int][2]int{}, raw: map[string]bool{}, Tables: []TblShape{}}, chains: chains}
 	w.walk(root, refCtx{})
 	w.src.NPara = w.paraID
 	w.src.NTbl = w.tblID
 	w.src.glued = gluedWords(root)
 	return w.src
+}
+
+// TblShape: how many rows and cells of a table (nested tables included) are there for a reader - a hidden row or
+// cell, or one inside a hidden part, is not.
+type TblShape struct {
+	Rows  int `json:"rows"`
+	Cells int `json:"cells"`
+}
+
+func tableShape(t *html.Node) TblShape {
+	var sh TblShape
+	var rec func(n *html.Node)
+	rec = func(n *html.Node) {
+		for c := n.FirstChild; c != nil; c = c.NextSibling {
+			if c.Type != html.ElementNode || refHidden(c) || c.Data == "script" || c.Data == "style" || c.Data == "template" {
+				continue
+			}
+			switch c.Data {
+			case "tr":
+				sh.Rows++
+			case "td", "th":
+				sh.Cells++
+			}
+			rec(c)
+		}
+	}
+	rec(t)
+	return sh
 }
 
 var rxGluedWord = regexp.MustCompile(`^(?:zq\d+){2,}$`)
